@@ -38,6 +38,8 @@ QUICK = [
     (1, P(p1=["tryQueueT:1", "tryQueueT:2", "tryDequeue", "tryDequeue"], k=["close"])),
     (1, P(p1=["queue:1", "queue:2", "tryDequeue", "tryDequeue"], k=["close"])),
     (1, P(c1=["dequeue"], c2=["dequeue"], p1=["queue:1"], k=["close"])),
+    # status calls from a third thread while a producer and a consumer work
+    (2, P(p1=["queue:1", "queue:2", "queue:3"], c1=["dequeue", "dequeue"], m1=["size", "size", "size"])),
     # two consumers parked, two puts, NO close: each put must wake a consumer of its own
     (2, P(c1=["dequeue"], c2=["dequeue"], p1=["queue:1", "queue:2"])),
     (1, P(p1=["queue:1", "queue:2"], p2=["queue:3"], c1=["dequeue", "dequeue", "dequeue"])),
@@ -158,8 +160,29 @@ def run(ck):
     if rc != 0:
         raise vf.Infra("drv_bq failed: " + out[-2000:])
     judge(ck, out_path, cases, "bq")
+    # ---- the same cases in a ThreadSanitizer build: "any threads ... no data race" for the blocking queue, status calls included
+    # (the scheduler is not instrumented and passes the baton invisibly, so TSan judges the queue's own synchronisation only)
+    ck.make("drv_bq.tsan")
+    tsan_path = os.path.join(ck.work, "tsan_cases.txt")
+    tcases = [c for c in cases if c[4] == "random"][: (400 if thorough else 60)]
+    with open(tsan_path, "w") as f:
+        for cap, prog, pol, ops, kind in tcases:
+            f.write("%d | %s | %s\n" % (cap, prog_text(prog), pol))
+    tout = os.path.join(ck.work, "bq_tsan.ndjson")
+    rc, out = vf.run_driver("drv_bq.tsan", ["run", tsan_path, tout, 16], timeout=900,
+                            env={"TSAN_OPTIONS": "halt_on_error=1 report_signal_unsafe=0 report_thread_leaks=0 suppressions=" + os.path.join(vf.HARNESS, "tsan.supp")})
+    if rc != 0:
+        raise vf.Infra("drv_bq.tsan failed: " + out[-2000:])
+    tev = vf.read_ndjson(tout)
+    crashed = [i for i, (st, evs) in enumerate(vf.split_executions(tev)) if any(e["e"] == "Crashed" for e in evs)]
+    ck.evaluations += len(tcases)
+    ck.note("bq tsan: %d executions, %d ended by a ThreadSanitizer report" % (len(tcases), len(crashed)))
+    if crashed:
+        cap, prog, pol, ops, kind = tcases[crashed[0]]
+        rp = ck.save_replay("bq_tsan", {"case.txt": "%d | %s | %s\n" % (cap, prog_text(prog), pol), "tsan.out": out[-20000:]})
+        ck.violation("ThreadSanitizer report (data race) in a BlockingQueue execution: %d | %s | %s" % (cap, prog_text(prog), pol), rp)
     # ---- DFS of the real object
-    dfs_jobs = [(1, programs[0][1], 2), (1, programs[2][1], 2), (2, programs[6][1], 2), (1, programs[7][1], 2)]
+    dfs_jobs = [(1, programs[0][1], 2), (1, programs[2][1], 2), (2, programs[9][1], 2), (1, programs[10][1], 2)]
     if thorough:
         dfs_jobs = [(c, p, 2) for c, p in programs[:8]] + [(1, programs[0][1], 4)]
     for j, (cap, prog, bound) in enumerate(dfs_jobs):
